@@ -353,6 +353,11 @@ def run(rep, tier, r):
         # what the model gets with the always-unknown oracle over the listed valuations
         mr = m.batch([("bp_jump", [len(valid)] + valid + [nv] + vals + [1] * nv + [1])])[0]
         malts = "halt" if mr == [-1] else sorted((mr[1 + i * (nv + 1)], mr[2 + i * (nv + 1): 2 + i * (nv + 1) + nv]) for i in range(mr[0]))
+        # the halting branch of the inputs whose destination is none of the valid ones (after the valid alternatives)
+        minv = None
+        if mr != [-1]:
+            rest = mr[1 + mr[0] * (nv + 1):]
+            minv = rest[1:1 + nv] if rest and rest[0] == 1 else None
         rets = {valid[k]: k + 1 for k in range(len(valid))}
         ialts = [(None, bits) for kind, bits in ipaths if kind == "ok"]
         rep.case({"bp": "jump", "valid": valid, "dst": vals}, nontrivial=True)
@@ -361,6 +366,14 @@ def run(rep, tier, r):
         # the implementation explores every valid destination (the word is unconstrained); compare on the listed valuations
         ilive = sorted(bits for _t, bits in ialts if any(bits))
         mlive = sorted(bits for _t, bits in mm if any(bits))
+        ihalt = sorted(bits for kind, bits in ipaths if kind.startswith("halt") and any(bits))
+        mhalt = [minv] if minv and any(minv) else []
+        if malts != "halt" and ihalt != mhalt:
+            lost = [vals[i] for i in range(nv) if vals[i] not in valid and not any(b[i] for b in ihalt)]
+            rep.fail("failing-input" if lost else "broken-tie",
+                     f"symbolic JUMP: valid destinations {valid}, destination values {vals}: the inputs whose destination is invalid ({lost}) "
+                     f"must end in a halting path of their own: implementation halting paths {ihalt}, model {mhalt}",
+                     case={"jump_case": [valid_n, dst], "implementation": ipaths, "model_invalid": minv}, sig={"observable": "symbolic-jump-invalid-destination"})
         if ilive != mlive or flags["crashed"]:
             rep.fail("broken-tie", f"symbolic JUMP: valid destinations {valid}, destination values {vals}: implementation paths {ipaths} ({flags['crashed']}) model {malts}",
                      case={"jump_case": [valid_n, dst], "implementation": ipaths, "model": malts})
